@@ -1073,7 +1073,7 @@ def clip(a, a_min=None, a_max=None, out=None):
     numpy.clip : Equivalent NumPy function
     """
     a = asCOO(a, name="clip")
-    return a.clip(a_min, a_max)
+    return a.clip(a_min, a_max, out=out)
 
 
 def expand_dims(x, /, *, axis=0):
